@@ -337,11 +337,21 @@ def oracle_stream(res, drv, tier, seed, viol):
     cases.append(pinned_hps_case(r))
     for i, c in enumerate(cases):
         c['with_callback'] = (i % 2 == 1)
-    impls = [run_calls(c['obj'], [(k, fp, id(p)) for k, p, fp in c['calls']], count_sweeps=(c['op'] == 'hps'), with_callback=c['with_callback'])
-             for c in cases]
+    impls = []
+    for c in cases:
+        try:
+            impls.append(run_calls(c['obj'], [(k, fp, id(p)) for k, p, fp in c['calls']], count_sweeps=(c['op'] == 'hps'), with_callback=c['with_callback']))
+        except Exception as e:      # an oracle that raises on a valid input is a failing input, never an infrastructure error
+            impls.append(e)
     res.extra['calls_reusing_the_callers_potential_object'] = REUSED[0]
     resps = drv.run([request_of(c) for c in cases], timeout=3000) if drv else [None] * len(cases)
     for c, impl, resp in zip(cases, impls, resps):
+        if isinstance(impl, Exception):
+            res.case(canon_of(c), True)
+            name = {'gbp': 'generalized_belief_propagation', 'hps': 'hazan_peng_shashua', 'lbp': 'loopy_belief_propagation'}[c['op']]
+            viol('failing-input', f'{name} raises {type(impl).__name__}: {str(impl)[:160]} (cliques {c["cl"]}, domain {c["dom"]})',
+                 {'request': canon_of(c)}, f'{c["op"]}:raises:{type(impl).__name__}')
+            continue
         check_case(res, c, impl, resp, viol)
 
 
